@@ -153,7 +153,14 @@ func (g *typeGen) structType(depth int) reflect.Type {
 			t = g.structType(depth + 1)
 		}
 		f := reflect.StructField{Name: g.fieldName(used), Type: t}
-		if t.Kind() != reflect.Struct && r.Intn(4) == 0 {
+		if t.Kind() != reflect.Struct && len(fs) > 0 && r.Intn(12) == 0 {
+			// the tag spells exactly the Go name of an earlier sibling: the tag wins for that key
+			sib := fs[r.Intn(len(fs))]
+			if sib.Tag == "" && !usedTags[sib.Name] && !strings.EqualFold(sib.Name, "name") {
+				usedTags[sib.Name] = true
+				f.Tag = reflect.StructTag(`bcl:"` + sib.Name + `"`)
+			}
+		} else if t.Kind() != reflect.Struct && r.Intn(4) == 0 {
 			for try := 0; try < 5; try++ {
 				tag := tagPool[r.Intn(len(tagPool))]
 				if !usedTags[tag] && !used[foldKey(tag)] {
@@ -289,9 +296,20 @@ func writeBlock(r *rand.Rand, b *strings.Builder, v reflect.Value, blockType str
 		f := t.Field(i)
 		key := f.Tag.Get("bcl")
 		if key == "" {
-			key = snakeSpelling(r, f.Name)
-			if lang.Keywords[key] {
-				key = key + "_"
+			for {
+				key = snakeSpelling(r, f.Name)
+				if lang.Keywords[key] {
+					key = key + "_"
+				}
+				clash := false
+				for j := 0; j < t.NumField(); j++ {
+					if t.Field(j).Tag.Get("bcl") == key {
+						clash = true // that spelling is another field's tag, which takes precedence
+					}
+				}
+				if !clash {
+					break
+				}
 			}
 		}
 		*keyCount++
